@@ -2,6 +2,13 @@ NOTES = ('Bounded-exhaustive model checking of the real implementation; see DESI
          'Known genuine defects are listed in known_findings.json.')
 NOT_APPLICABLE = {}
 CHECKS = {
+ 'C02': dict(engine='E3', design_ref='4/C02',
+    technique='exhaustive enumeration of a configuration lattice (all assignments within k deviations of several bases over model, geometry, laminate, offset, 24 edge flags, series orders incl. index 30, y sub-intervals, placement, pre-load, finalize) on the real Panel.calc_k0 against an independent strain-operator Hessian assembled from exact 1-D integrals',
+    text='Every lattice configuration is executed through the public Panel API and every matrix entry is compared with int B^T F B derived from the Donnell strain operator '
+         '(exact rational 1-D tables, separable assembly; conical panels with the same 41-section frozen-radius approximation); zero outside the block, symmetry, PSD on active amplitudes; '
+         'edges between real executions: tiling of sub-intervals, pre-load == initial-stress matrix. Complete up to 2 (quick) / 3 (thorough) deviations.',
+    note='kernels (.pyx) cannot be regenerated here, so kernel mutations are invisible exactly as for the test-suite; the known cone finding is matched by an explained-by signature; '
+         'tolerance 1e-11 of the summand magnitude'),
  'C09': dict(engine='E1', design_ref='2.1, 4/C09',
     technique='stateless choice-tree exploration (replay-based DFS, deviation-bounded, state merging at load-step boundaries) of all environment answer histories fed to the real Newton-Raphson driver',
     text='The real Analysis.static(NLgeom=True) is run to completion for every history of per-iteration residual answers (5-letter alphabet, all sequences up to a depth) and '
